@@ -46,6 +46,17 @@ def an_extraction():
     else:
         stackscope.extract_until(sys._getframe(0), limit=1, with_contexts=False)
 
+
+class FalsyCallable:
+    def __init__(self, fn):
+        self.fn = fn
+
+    def __bool__(self):
+        return False
+
+    def __call__(self):
+        return self.fn()
+
 class Mismatch(Exception):
     pass
 
@@ -83,12 +94,14 @@ class World:
                 sys.modules[zz(tgt)] = self.modobj[tgt]
             if fl == "removes":
                 sys.modules.pop(zz(tgt), None)
-        return fn
+        # glue "functions" are callables that are FALSY objects (a callable collection of hooks, say): whether a
+        # module has glue is a question of presence, not of truthiness
+        return FalsyCallable(fn)
 
     def builtin_fn(self, m):
         def fn():
             self.calls.append([m, "builtin"])
-        return fn
+        return FalsyCallable(fn)
 
     def reset(self):
         for m in self.mods:
